@@ -216,7 +216,7 @@ def modelled : List (String × String) := [
   ("try_element_at", "inline")]
 
 /-- modelled emulations that live in the default body (no engine branch for DuckDB) -/
-def modelledDefault : List String := ["array_position", "date_add", "date_sub", "locate", "instr", "lpad", "rpad", "substring"]
+def modelledDefault : List String := ["array_position", "date_add", "date_sub", "locate", "instr", "lpad", "rpad", "substring", "soundex"]
 
 /-- DuckDB emulations that are NOT modelled here: compared by value only (stream C), never claimed as proved -/
 def unmodelled : List String := [
